@@ -211,7 +211,7 @@ def protocol_probes(acc, d, driver, seed, handles=HANDLES, near=True):
 
 def units(tier, seed):
     us = [{"kind": "proto", "driver": d, "seed": seed, "handle": h} for d in ("h5", "ih5", "ih5mf") for h in HANDLES]
-    us += [dict(u, kind="vis") for u in CC.make_units(tier, seed, 300, 6000)]
+    us += [dict(u, kind="vis") for u in CC.make_units(tier, seed, 300, 3600)]
     return us
 
 
